@@ -121,6 +121,12 @@ Ltac xs1 :=
   | |- hx _ (bind (bind _ _) _) _ => apply x_assoc
   | |- hx _ (bind get _) _ => apply x_get
   | |- hx _ (bind (gets _) _) _ => unfold gets at 1
+  | |- hx _ (bind (ask_unit _) _) _ => unfold ask_unit at 1
+  | |- hx _ (bind ask_now _) _ => unfold ask_now at 1
+  | |- hx _ (bind ask_watchonly _) _ => unfold ask_watchonly at 1
+  | |- hx _ (ask_unit _) _ => unfold ask_unit at 1
+  | |- hx _ ask_now _ => unfold ask_now at 1
+  | |- hx _ ask_watchonly _ => unfold ask_watchonly at 1
   | |- hx _ (bind (modify _) _) _ => apply x_modify
   | |- hx _ (bind (ask _) _) _ => apply x_ask; let a := fresh "a" in let c := fresh "c" in let Hc := fresh "Hc" in intros a c Hc
   | |- hx _ (bind (ret _) _) _ => apply x_ret_bind
@@ -172,3 +178,22 @@ Qed.
 Lemma hash_eqb_eq (a b : hash) : hash_eqb a b = true <-> a = b.
 Proof. apply list_eqb_Z_eq. Qed.
 Lemma hash_eqb_refl (a : hash) : hash_eqb a a = true. Proof. apply hash_eqb_eq. reflexivity. Qed.
+
+(* transactions map *)
+Lemma tx_find_put_same l h t : tx_find (tx_put l h t) h = Some t.
+Proof. induction l as [|[h' t'] r IH]; cbn; [rewrite hash_eqb_refl; reflexivity|].
+  destruct (hash_eqb h' h) eqn:E; cbn; [rewrite hash_eqb_refl; reflexivity|rewrite E; exact IH]. Qed.
+Lemma tx_find_put_other l h t h2 : hash_eqb h h2 = false -> tx_find (tx_put l h t) h2 = tx_find l h2.
+Proof. intros Hn. induction l as [|[h' t'] r IH]; cbn; [rewrite Hn; reflexivity|].
+  destruct (hash_eqb h' h) eqn:E; cbn.
+  - apply hash_eqb_eq in E. subst h'. rewrite Hn. reflexivity.
+  - destruct (hash_eqb h' h2); auto. Qed.
+Lemma tx_find_put_keep l h t h2 : tx_find l h2 <> None -> tx_find (tx_put l h t) h2 <> None.
+Proof. intros H. destruct (hash_eqb h h2) eqn:E.
+  - apply hash_eqb_eq in E. subst. rewrite tx_find_put_same. discriminate.
+  - rewrite tx_find_put_other; auto. Qed.
+Lemma tx_put_fold_keep txs : forall l h, tx_find l h <> None ->
+  tx_find (fold_left (fun acc t => tx_put acc (tx_hash t) t) txs l) h <> None.
+Proof. induction txs as [|a r IH]; cbn; auto. intros l h H. apply IH. apply tx_find_put_keep. exact H. Qed.
+Lemma tx_put_all_found_gen txs : forall l x, In x txs -> tx_find (fold_left (fun acc t => tx_put acc (tx_hash t) t) txs l) (tx_hash x) <> None.
+Proof. induction txs as [|a r IH]; cbn; intros l x []; [subst; apply tx_put_fold_keep; rewrite tx_find_put_same; discriminate|apply IH; auto]. Qed.
